@@ -195,16 +195,16 @@ class Gfa(Lines,GraphOperations,RGFA):
     Parameters:
       filename (str)
     """
-    if self._progress:
-      linecount = 0
-      with open(filename) as f:
-        for line in f:
-          linecount += 1
-      # TODO: better implementation of linecount
-      self._progress_log_init("read_file", "lines", linecount,
-                              "Parsing file {}".format(filename)+
-                              " containing {} lines".format(linecount))
     try:
+      if self._progress:
+        linecount = 0
+        with open(filename) as f:
+          for line in f:
+            linecount += 1
+        # TODO: better implementation of linecount
+        self._progress_log_init("read_file", "lines", linecount,
+                                "Parsing file {}".format(filename)+
+                                " containing {} lines".format(linecount))
       with open(filename) as f:
         for line in f:
           self.add_line(line.rstrip('\r\n'))
